@@ -546,7 +546,7 @@ def run(ck):
             for k in rng.sample(["project", "operator2", "machine", "lab", "t_act", "comment", "DOI", "is_real", "n_runs"], rng.randint(0, 5)):
                 r = rng.random()
                 meta[k] = (rng.choice(texts) if r < 0.4 else rng.randint(0, 10 ** rng.randint(0, 9)) if r < 0.55 else
-                           round(rng.uniform(-50, 500), rng.randint(1, 6)) if r < 0.8 else (rng.random() < 0.5))
+                           round(rng.uniform(-50, 500), rng.randint(1, 6)) if r < 0.72 else rng.choice(isogen.TEXT_FLOATS) if r < 0.8 else (rng.random() < 0.5))
             c["meta"] = meta
             # at most ONE of: a value outside the format's value domain / a metadata key of a special class / material properties with special names
             odd = special_key = None
@@ -573,7 +573,7 @@ def run(ck):
                 for _ in range(rng.choice([1, 1, 2, 3])):
                     P = rng.choice(sorted(set(MATP.values())))
                     name = rng.choice(["pore_size", "form", "BET-area", "lot.7", "a" + P + "b", "x" + P, P + "q", P + P + "z", P[1:] + "k", "a" + P[:-1], "Q" + P + "r" + P])
-                    props[name] = rng.choice(texts) if rng.random() < 0.3 else round(rng.uniform(0.1, 900), rng.randint(1, 5)) if rng.random() < 0.8 else (rng.random() < 0.5)
+                    props[name] = rng.choice(texts) if rng.random() < 0.3 else round(rng.uniform(0.1, 900), rng.randint(1, 5)) if rng.random() < 0.7 else rng.choice(isogen.TEXT_FLOATS) if rng.random() < 0.4 else (rng.random() < 0.5)
                 c["material_props"] = props
             try:
                 iso = _build(pg, c)
